@@ -297,7 +297,7 @@ def gen_run(seed: int, tier: str, sub: str) -> dict:
     }
     fault_kinds = []
     if cfg['faults']:
-        fault_kinds = [k for k in ('cancel', 'engine', 'swap_default', 'redefine', 'gc', 'new_rt')
+        fault_kinds = [k for k in ('cancel', 'engine', 'swap_default', 'redefine', 'gc', 'new_rt', 'ambient')
                        if r.random() < 0.6] or ['cancel']
     cfg['fault_kinds'] = fault_kinds
     if 'cancel' in fault_kinds:
@@ -422,6 +422,9 @@ def gen_run(seed: int, tier: str, sub: str) -> dict:
                 for ns, name, cargs, cctx in rung:
                     ops.append({'op': 'call', 'fn': [ns, name], 'key': {'root': [ns, name], 'chain': []},
                                 'args': cargs, 'ctx': cctx, 'rt': 'default' if (t + len(ops)) % 3 else 'own', 'cancel': None})
+            if 'ambient' in fault_kinds:
+                # the caller's own MPFR settings change somewhere along the ladder
+                ops.insert(r.randrange(len(ops) // 2 + 1), {'op': 'ambient', 'set': r.choice(AMBIENTS)})
             threads.append(ops)
         return {'seed': seed, 'cfg': cfg, 'threads': threads, 'schedule': None, 'sched_seed': r.randrange(1 << 62)}
     for t in range(nthreads):
@@ -445,6 +448,9 @@ def gen_run(seed: int, tier: str, sub: str) -> dict:
                     continue
                 if k == 'gc':
                     ops.append({'op': 'gc'})
+                    continue
+                if k == 'ambient':
+                    ops.append({'op': 'ambient', 'set': r.choice(AMBIENTS)})
                     continue
                 if k == 'redefine':
                     base = r.choice(sorted(meta))
@@ -526,6 +532,32 @@ def _outcome_of_call(fn, args, ctx, how: str, own_rt):
     except Exception as e:
         return ['exc', type(e).__name__], None
     return ['ok', V.denote(res)], res
+
+
+# what the calling thread's own gmpy2 (MPFR) context may look like when it calls an FPy function: the
+# application, or the Python body of a primitive, used gmpy2 for its own purposes in this thread
+AMBIENTS = [['prec', 2], ['prec', 24], ['prec', 113], ['round', 'RoundUp'], ['round', 'RoundDown'], ['round', 'RoundToZero'],
+            ['round', 'RoundAwayZero'], ['ieee', 16], ['ieee', 32], ['ieee', 128], ['traps'], ['range', 10, -10],
+            ['range', 1000, -1000], ['default']]
+
+
+def _set_ambient(spec: list):
+    import gmpy2
+    kind = spec[0]
+    if kind == 'prec':
+        ctx = gmpy2.context(precision=spec[1])
+    elif kind == 'round':
+        ctx = gmpy2.context(round=getattr(gmpy2, spec[1]))
+    elif kind == 'ieee':
+        ctx = gmpy2.ieee(spec[1])
+    elif kind == 'traps':
+        ctx = gmpy2.context(trap_inexact=True, trap_underflow=True, trap_overflow=True, trap_divzero=True,
+                            trap_invalid=True)
+    elif kind == 'range':
+        ctx = gmpy2.context(emax=spec[1], emin=spec[2])
+    else:
+        ctx = gmpy2.context()
+    gmpy2.set_context(ctx)
 
 
 def _publish_probe() -> int:
@@ -683,6 +715,9 @@ def execute_run(run: dict) -> dict:
                         rec['outcome'] = ['ok']
                 elif kind == 'gc':
                     gc.collect()
+                    rec['outcome'] = ['ok']
+                elif kind == 'ambient':
+                    _set_ambient(op['set'])
                     rec['outcome'] = ['ok']
                 else:
                     rec['outcome'] = ['unknown-op']
@@ -948,7 +983,7 @@ def collect_stats(st: core.Stats, run: dict, out: dict):
                 st.count('undecided', 'reference')
             if oc[0] == 'ok':
                 ok += 1
-        elif rec['op'] in ('engine', 'swap_default', 'redefine', 'gc', 'new_rt', 'factory'):
+        elif rec['op'] in ('engine', 'swap_default', 'redefine', 'gc', 'new_rt', 'factory', 'ambient'):
             st.count('faults', rec['op'])
         elif rec['op'] == 'derive':
             st.count('faults', 'derive')
